@@ -257,8 +257,18 @@ func (e *SpecEnv) selectField(x TV, name string) TV {
 			e.fail("no field %s in %s", name, x.Ty)
 		}
 		arr := vc.fieldArr(vc.structName(elemT, st), st.Field(i))
-		r := TV{T: fmt.Sprintf("(select %s %s)", e.curHeap().get(arr), x.T), Ty: st.Field(i).Type()}
+		ver := e.curHeap().get(arr)
+		r := TV{T: fmt.Sprintf("(select %s %s)", ver, x.T), Ty: st.Field(i).Type()}
 		e.assumeWF(r)
+		if _, isPtr := r.Ty.Underlying().(*types.Pointer); isPtr && !strings.Contains(r.T, "?") {
+			// every reference stored in a heap array is older than that array version
+			if b, ok := vc.arrBound[ver]; ok && b != "" {
+				vc.assume(fmt.Sprintf("(and (>= %s 0) (< %s %s))", r.T, r.T, b))
+			} else if strings.HasSuffix(ver, "@stable|") {
+				// set-once field: an object that existed at entry got its value before entry
+				vc.assume(fmt.Sprintf("(=> (< %s alloc0) (and (>= %s 0) (< %s alloc0)))", x.T, r.T, r.T))
+			}
+		}
 		return r
 	}
 	if st, ok := x.Ty.Underlying().(*types.Struct); ok {
